@@ -38,7 +38,7 @@ def check_moving(ctx, case):
     import warnings
     with warnings.catch_warnings():
         warnings.simplefilter('ignore')
-        out = must(case, 'moving_%s(window=%d, axis=%s) on %s%s' % (op, w, axis, data.dtype, data.shape), f, data, w, **({} if axis is None else {'axis': axis}))
+        out = must(case, 'moving_%s(window=%d, axis=%s) on %s%s' % (op, w, axis, data.dtype, data.shape), f, gen.L(case, data), w, **({} if axis is None else {'axis': axis}))
     ax = data.ndim - 1 if axis is None else axis % data.ndim
     n = data.shape[ax]
     exp_shape = tuple(n - w + 1 if i == ax else s for i, s in enumerate(data.shape))
@@ -101,7 +101,7 @@ def check_pattern(ctx, case):
     import warnings
     with warnings.catch_warnings():
         warnings.simplefilter('ignore')
-        out = must(case, '%s(trace %d, pattern %d)' % (op, len(trace), len(pattern)), getattr(sp, op), trace, pattern)
+        out = must(case, '%s(trace %d, pattern %d)' % (op, len(trace), len(pattern)), getattr(sp, op), gen.L(case, trace), gen.L(case, pattern, 1))
     n, N = len(pattern), len(trace)
     if np.shape(out) != (N - n + 1,):
         raise Violation('%s: result shape %s, expected (%d,)' % (op, np.shape(out), N - n + 1), case)
@@ -191,7 +191,7 @@ def check_pad(ctx, case):
 def check_extract(ctx, case):
     data, idx, before, after, mode = case['data'], case['indexes'], case['before'], case['after'], case['mode']
     m = {'stack': sp.ExtractMode.STACK, 'concatenate': sp.ExtractMode.CONCATENATE, 'average': sp.ExtractMode.AVERAGE, None: None}[mode]
-    out = must(case, 'extract_around_indexes(mode=%s)' % mode, sp.extract_around_indexes, data, idx, before, after, **({} if m is None else {'mode': m}))
+    out = must(case, 'extract_around_indexes(mode=%s)' % mode, sp.extract_around_indexes, gen.L(case, data), idx, before, after, **({} if m is None else {'mode': m}))
     rows = [[data[int(i) + k] for k in range(-before, after + 1)] for i in idx]
     if mode in (None, 'stack'):
         exp = np.array(rows, dtype=data.dtype).reshape(len(idx), before + after + 1)
@@ -211,7 +211,7 @@ def check_extract(ctx, case):
 def check_peaks(ctx, case):
     data, dist, height = case['data'], case['distance'], case['height']
     d0 = data.copy()
-    out = must(case, 'find_peaks(distance=%d, height=%r) on %s' % (dist, height, data.tolist()), sp.find_peaks, data, dist, height)
+    out = must(case, 'find_peaks(distance=%d, height=%r) on %s' % (dist, height, data.tolist()), sp.find_peaks, gen.L(case, data), dist, height)
     out = [int(v) for v in np.asarray(out).reshape(-1)]
     n = len(data)
     cand = [i for i in range(n) if (i == 0 or data[i] >= data[i - 1]) and (i == n - 1 or data[i] >= data[i + 1]) and data[i] >= height]
@@ -242,7 +242,7 @@ def check_width(ctx, case):
     import warnings
     with warnings.catch_warnings():
         warnings.simplefilter('ignore')
-        out = must(case, 'find_width', sp.find_width, data, d, thr, mn, **{k: v for k, v in (('max_width', mx), ('delta', delta)) if v is not None})
+        out = must(case, 'find_width', sp.find_width, gen.L(case, data), d, thr, mn, **{k: v for k, v in (('max_width', mx), ('delta', delta)) if v is not None})
     beyond = [(x > thr) if direction == 'positive' else (x < thr) for x in data]
     n = len(data)
     runs, rejected = [], 0
